@@ -6,6 +6,7 @@ import hashlib
 import pickle
 
 import c18_lib as L
+import c18_shapes as S
 import common
 from common import cbool, clist, cnat, cstr, cz
 from framework import TranslateError  # noqa: F401
@@ -31,7 +32,8 @@ TRUSTED = [
 ]
 ASSUMPTIONS = [
     "iterative models run at least one epoch (IterativeTraining documents trained_epochs > 0 as its already-trained test; with epochs = 0 a component never counts as trained)",
-    "a training call that raises is outside the property (the object may then be partially updated)",
+    "a training call that raises is outside the property (the object may then be partially updated) -- except that raising must not depend on the "
+    "history: a retraining returns normally exactly when a fresh component trained on the same data and options does",
     "scikit-learn / implicit draw from numpy's global generator unless configured: the driver pins it before each training so equal inputs give equal bits",
     "a component instance appears under one pipeline node (Pipeline.train trains per node)",
 ]
@@ -40,7 +42,13 @@ RULE = ("component histories: 2-4 train calls over 2-3 generated datasets with s
         "standard top-N / prediction pipelines, pipelines of instrumented components under every kind of options.rng (recording the seed handed over AND the "
         "first draws of the generator obtained from options.random_generator(), against the positional children of the supplied seed), and seeded "
         "pipelines holding two or three real stochastic scorers (each against the same component trained alone with its child seed); probe list = all users "
-        "and items of all datasets of the history plus unseen ones, with and without a supplied user history.  non-trivial = at least two "
+        "and items of all datasets of the history plus unseen ones, with and without a supplied user history.  Training DATA shapes are a generated "
+        "dimension: per kind one history for each of old-timestamps (nothing inside any time window) / recent-timestamps / no-ratings / one-user / one-item / "
+        "equal-ratings / single-row / no-timestamps as the later (3 in 4) or the earlier dataset, the retraining on it with retrain on, compared with a fresh "
+        "component trained on that dataset alone (if that raises, the retraining must raise too).  Pipeline SHAPES are a generated dimension: instrumented "
+        "pipelines are wired graphs (0-2 sources per node, shared sources, use_first_of fallbacks, default node and / or aliases or neither), every node "
+        "has a train counter and is run by name after every training; real pipelines include a fallback predictor behind a transforming rating-predictor node "
+        "and a second scorer reachable by name only, every component compared with the same component trained alone; scorer pairs are wired with one declared output.  non-trivial = at least two "
         "effective trainings on datasets with different item or user vocabularies, or a skipped call after a training; for instrumented pipelines: "
         "at least two trainable nodes and a supplied seed; for scorer pairs: two equal stochastic scorers in one pipeline; distinct = by hash of the case")
 
@@ -110,9 +118,10 @@ def gen_steps(rng, nds):
     return steps
 
 
-def gen_comp_case(rng, kind, malformed=False):
+def gen_comp_case(rng, kind, malformed=False, shape=None):
     nds = rng.weighted([(2, 3), (3, 2)])
     specs = [L.gen_dataset(rng, t, small=rng.chance(1, 3)) for t in range(nds)]
+    steps = gen_steps(rng, nds)
     if malformed:
         # a dataset the component cannot be trained on (no ratings / a single pair)
         bad = rng.below(nds)
@@ -120,24 +129,59 @@ def gen_comp_case(rng, kind, malformed=False):
             specs[bad]["implicit"] = True
         else:
             specs[bad]["rows"] = specs[bad]["rows"][:1]
+    if shape is not None:
+        # training DATA shapes: one dataset of the history makes the learned statistics empty or degenerate -- mostly the
+        # LATER one, on which an already trained object is retrained (retrain on); sometimes the earlier one
+        r = rng.fork("shape")
+        which = 1 if r.chance(3, 4) else 0
+        specs[which] = S.reshape(specs[which], shape, r)
+        if shape in ("old-timestamps", "recent-timestamps"):
+            specs[1 - which]["timestamps"] = True     # the other dataset has a time window with something in it
+        steps = [{"ds": 0, "retrain": r.chance(1, 2), "seed": r.randint(1, 10**6)},
+                 {"ds": 1, "retrain": True, "seed": r.randint(1, 10**6)}]
+        tail = r.weighted([("none", 2), ("skip", 1), ("back", 1)])
+        if tail == "skip":
+            steps.append({"ds": r.below(nds), "retrain": False, "seed": r.randint(1, 10**6)})
+        elif tail == "back":
+            steps.append({"ds": 0, "retrain": True, "seed": r.randint(1, 10**6)})
     return {"type": "comp", "kind": kind, "cfg": L.gen_config(rng, kind), "datasets": specs,
-            "steps": gen_steps(rng, nds), "probes": L.gen_probes(rng, specs), "malformed": malformed}
+            "steps": steps, "probes": L.gen_probes(rng, specs), "malformed": malformed}
 
 
-def gen_pipe_case(rng):
+PIPE_BUILDERS = ["topn", "predict", "topn-pred", "topn-transform", "topn-side", "predict-side"]
+SIDE_KINDS = ["pop", "bias", "iknn", "als"]
+
+
+def gen_pipe_case(rng, j=0):
     kind = rng.choice(PIPE_SCORERS)
     nds = 2
     specs = [L.gen_dataset(rng, t) for t in range(nds)]
-    return {"type": "pipe", "builder": rng.choice(["topn", "predict", "topn-pred"]), "kind": kind, "cfg": L.gen_config(rng, kind),
+    case = {"type": "pipe", "builder": rng.choice(["topn", "predict", "topn-pred"]), "kind": kind, "cfg": L.gen_config(rng, kind),
             "datasets": specs, "steps": gen_steps(rng, nds)[:3], "probes": L.gen_probes(rng, specs), "n": rng.choice([-1, 3])}
+    r = rng.fork("shape")
+    if j % 2 == 1:
+        # pipeline SHAPES with trainable components off every declared output: a fallback predictor behind a transforming
+        # (hence not aliased) rating-predictor node, or a second scorer that is only ever run by name
+        case["builder"] = r.choice(["topn-transform", "topn-side", "predict-side"])
+        if case["builder"] != "topn-transform":
+            sk = r.choice(SIDE_KINDS)
+            case["side"] = {"kind": sk, "cfg": L.gen_config(r, sk)}
+    if j % 5 == 4:
+        how = r.choice(S.DATA_SHAPES)
+        specs[1] = S.reshape(specs[1], how, r)
+        case["steps"] = [{"ds": 0, "retrain": True, "seed": r.randint(1, 10**6)}, {"ds": 1, "retrain": True, "seed": r.randint(1, 10**6)}]
+    return case
 
 
 def gen_instr_case(rng):
     n = rng.randint(1, 7)
     nodes = [{"name": f"c{j}", "trainable": rng.chance(2, 3)} for j in range(n)]
-    return {"type": "instr", "nodes": nodes, "rng": rng.choice(RNG_KINDS), "seed": rng.randint(0, 2**31 - 1),
+    case = {"type": "instr", "nodes": nodes, "rng": rng.choice(RNG_KINDS), "seed": rng.randint(0, 2**31 - 1),
             "spawned_before": rng.randint(1, 4), "retrain": rng.chance(1, 2), "repeat": rng.choice([1, 1, 2]),
             "options_none": rng.chance(1, 8)}
+    # the SHAPE of the pipeline: unconnected nodes without declared outputs, or a wired graph with a default node / aliases
+    case["wiring"] = S.gen_wiring(rng.fork("wiring"), [nd["name"] for nd in nodes]) if rng.chance(3, 4) else None
+    return case
 
 
 STOCHASTIC = ["als", "ials", "funk", "flexe", "flexi", "svd"]
@@ -151,8 +195,14 @@ def gen_pair_case(rng):
     if n == 3:
         k = rng.choice(STOCHASTIC)
         members.insert(rng.below(3), {"kind": k, "cfg": L.gen_config(rng, k)})   # ... and possibly a third one
-    return {"type": "pair", "members": members, "dataset": L.gen_dataset(rng, 0), "seed": rng.randint(1, 10**6),
+    case = {"type": "pair", "members": members, "dataset": L.gen_dataset(rng, 0), "seed": rng.randint(1, 10**6),
             "seed_kind": rng.choice(["int", "int", "seedseq", "intlist"]), "deterministic_between": rng.chance(1, 2)}
+    # the SHAPE around the scorers: unconnected nodes, or all wired to the pipeline inputs with ONE of them the declared output
+    # (default node or alias) -- the others are side branches, reachable by their node names only
+    r = rng.fork("layout")
+    case["layout"] = r.choice(["flat", "default", "alias", "default+alias"])
+    case["output"] = r.below(len(members))
+    return case
 
 
 def gen_cases(rng, tier):
@@ -163,8 +213,11 @@ def gen_cases(rng, tier):
         n = (14 if COST.get(kind, 1) == 1 else 10) * mult
         for j in range(n):
             out.append(gen_comp_case(rng.fork(("comp", kind, j)), kind, malformed=(j % 7 == 6)))
+        for rep in range(max(1, mult // 4)):
+            for how in S.DATA_SHAPES:
+                out.append(gen_comp_case(rng.fork(("comp-shape", kind, how, rep)), kind, shape=how))
     for j in range(30 * mult):
-        out.append(gen_pipe_case(rng.fork(("pipe", j))))
+        out.append(gen_pipe_case(rng.fork(("pipe", j)), j))
     for j in range(80 * mult):
         out.append(gen_instr_case(rng.fork(("instr", j))))
     for j in range(24 * mult):
@@ -181,45 +234,89 @@ def _hash_bytes(b: bytes) -> str:
     return hashlib.sha256(b).hexdigest()[:16]
 
 
+def _probes(comp, kind, probes):
+    """Probe outputs; a component that cannot answer at all (nothing learned) answers with its error."""
+    try:
+        return L.probe_digests(comp, kind, probes)
+    except Exception as e:
+        return [_dz(("error", type(e).__name__))]
+
+
+def _err(e: Exception) -> str:
+    return type(e).__name__
+
+
 def run_comp(case):
     L.setup()
+    import warnings
     kind, cfg = case["kind"], case["cfg"]
     comp = L.make(kind, cfg)
     obs = {"class": type(comp).__name__, "variant": variant_label(comp), "steps": []}
-    for st in case["steps"]:
-        ds = L.dataset(case["datasets"][st["ds"]])
-        before = pickle.dumps(comp)
-        try:
-            L.train(comp, ds, st["retrain"], st["seed"])
-        except Exception as e:  # training rejected the data: outside the property; the history ends here
-            obs["steps"].append({"error": type(e).__name__})
-            break
-        after = pickle.dumps(comp)
-        fresh = L.make(kind, cfg)
-        try:
-            L.train(fresh, ds, st["retrain"], st["seed"])
-        except Exception as e:  # the retrain was skipped on data a fresh component cannot be trained on
-            fresh = None
-        obs["steps"].append({
-            "store": L.store_of(comp),
-            "fresh": None if fresh is None else L.store_of(fresh),
-            "hp": L.probe_digests(comp, kind, case["probes"]),
-            "fp": None if fresh is None else L.probe_digests(fresh, kind, case["probes"]),
-            "pickle_same": before == after,
-        })
+    with warnings.catch_warnings():
+        warnings.simplefilter("ignore")
+        for st in case["steps"]:
+            ds = L.dataset(case["datasets"][st["ds"]])
+            before = pickle.dumps(comp)
+            err = ferr = None
+            try:
+                L.train(comp, ds, st["retrain"], st["seed"])
+            except Exception as e:  # training rejected the data; the history ends here (the object may be partially updated)
+                err = _err(e)
+            after = None if err else pickle.dumps(comp)
+            # the reference: a freshly constructed component trained on this dataset alone -- it may reject the data too
+            fresh = L.make(kind, cfg)
+            try:
+                L.train(fresh, ds, st["retrain"], st["seed"])
+            except Exception as e:
+                fresh, ferr = None, _err(e)
+            if err:
+                obs["steps"].append({"error": err, "fresh_error": ferr})
+                break
+            obs["steps"].append({
+                "store": L.store_of(comp),
+                "fresh": None if fresh is None else L.store_of(fresh),
+                "hp": _probes(comp, kind, case["probes"]),
+                "fp": None if fresh is None else _probes(fresh, kind, case["probes"]),
+                "pickle_same": before == after,
+                "fresh_error": ferr,
+            })
     obs["fallbacks"] = sorted(L.fallbacks)
     return obs
 
 
 def build_pipe(case):
-    from lenskit.pipeline import predict_pipeline, topn_pipeline
+    from lenskit.basic.bias import BiasScorer
+    from lenskit.pipeline import RecPipelineBuilder, predict_pipeline, topn_pipeline
 
     sc = L.make(case["kind"], case["cfg"])
-    if case["builder"] == "topn":
+    how = case["builder"]
+    if how == "topn":
         return topn_pipeline(sc, n=case["n"])
-    if case["builder"] == "topn-pred":
+    if how == "topn-pred":
         return topn_pipeline(sc, predicts_ratings=True, n=case["n"])
-    return predict_pipeline(sc)
+    if how == "predict":
+        return predict_pipeline(sc)
+    if how == "topn-transform":
+        # rating-predictor is a component node of its own here, not an alias: the fallback predictor behind it feeds no declared output
+        rb = RecPipelineBuilder()
+        rb.scorer(sc)
+        rb.ranker(n=case["n"])
+        rb.predicts_ratings(transform=S.classes()["ClipTransform"](), fallback=BiasScorer())
+        return rb.build()
+    if how in ("topn-side", "predict-side"):
+        # a second scorer wired to the same inputs, reachable by its node name only
+        base = topn_pipeline(sc, n=case["n"]) if how == "topn-side" else predict_pipeline(sc)
+        b = base.modify()
+        side = L.make(case["side"]["kind"], case["side"]["cfg"])
+        items = b.node("candidates", missing="none")
+        if items is None:
+            items = b.node("items")
+        if case["side"]["kind"] == "pop":
+            b.add_component("side-scorer", side, items=items)
+        else:
+            b.add_component("side-scorer", side, query=b.node("history-lookup"), items=items)
+        return b.build()
+    raise KeyError(how)
 
 
 def pipe_components(pipe):
@@ -233,52 +330,121 @@ def pipe_components(pipe):
     return out
 
 
+def _canon_result(r):
+    from lenskit.data import ItemList, RecQuery
+
+    if isinstance(r, ItemList):
+        sc = r.scores()
+        return ("items", tuple(repr(i) for i in r.ids().tolist()), None if sc is None else L._fl(sc))
+    if isinstance(r, RecQuery):
+        ui = r.user_items
+        return ("query", repr(r.user_id), None if ui is None else tuple(repr(i) for i in ui.ids().tolist()))
+    return ("value", type(r).__name__)
+
+
 def pipe_outputs(pipe, case) -> list[int]:
+    """What the pipeline answers: its declared outputs, and every component node run BY NAME (a node that feeds no declared
+    output is still part of the pipeline)."""
     import numpy as np
     from lenskit.data import ItemList, RecQuery
 
     items = ItemList(item_ids=np.array(case["probes"]["items"], dtype=np.int64))
+    targets = []
+    if case["builder"] == "predict":
+        targets.append("rating-predictor")
+    else:
+        targets.append("recommender")
+    targets += [n for n, c, t in pipe_components(pipe) if t and n not in targets]
+    for extra in ("rating-predictor",):
+        if pipe.node(extra, missing="none") is not None and extra not in targets:
+            targets.append(extra)
     out = []
     for u in case["probes"]["users"]:
-        try:
-            if case["builder"] == "predict":
-                r = pipe.run("rating-predictor", query=RecQuery(user_id=u), items=items)
-            else:
-                r = pipe.run("recommender", query=RecQuery(user_id=u))
-            sc = r.scores()
-            val = (tuple(int(i) for i in r.ids().tolist()), None if sc is None else L._fl(sc))
-        except (KeyError, ValueError, RuntimeError, TypeError) as e:
-            val = ("error", type(e).__name__)
-        out.append(int.from_bytes(hashlib.sha256(repr(val).encode()).digest()[:7], "big"))
+        for tg in targets:
+            try:
+                if tg == "recommender":
+                    r = pipe.run("recommender", query=RecQuery(user_id=u))
+                else:
+                    r = pipe.run(tg, query=RecQuery(user_id=u), items=items)
+                val = _canon_result(r)
+            except Exception as e:
+                val = ("error", type(e).__name__)
+            out.append(_dz((tg, val)))
+    return out
+
+
+def _alone_stores(pipe, ds, st):
+    """Every trainable component of the pipeline, constructed afresh and trained ALONE on the dataset with a child of the
+    seed: what "Pipeline.train trains each trainable component on the given data" must amount to.  The child tried first is
+    the positional one; the order in which a pipeline hands out the children is not part of the property, so on a mismatch
+    the other children are tried as well and the positional result is kept only if none fits."""
+    import copy
+
+    import numpy as np
+    from lenskit.training import TrainingOptions
+
+    root = np.random.SeedSequence(st["seed"])
+    comps = [(name, c) for name, c, t in pipe_components(pipe) if t]
+    out = {}
+    for j, (name, c) in enumerate(comps):
+        have = _public(L.store_of(c))
+        first = None
+        for child in [j] + [i for i in range(len(comps)) if i != j]:
+            alone = type(c)(copy.deepcopy(c.config)) if c.config is not None else type(c)()
+            np.random.seed(st["seed"] % 2**32)
+            try:
+                alone.train(ds, TrainingOptions(retrain=st["retrain"], rng=np.random.SeedSequence(root.entropy, spawn_key=(child,))))
+                got = _public(L.store_of(alone))
+            except Exception as e:
+                got = {"error": _err(e)}
+            if first is None:
+                first = got
+            if got == have:
+                first = got
+                break
+        out[name] = first
     return out
 
 
 def run_pipe(case):
     L.setup()
+    import warnings
+
+    import numpy as np
     from lenskit.training import TrainingOptions
 
     pipe = build_pipe(case)
     obs = {"steps": [], "components": [[n, type(c).__name__, variant_label(c) if t else None, t] for n, c, t in pipe_components(pipe)]}
-    import numpy as np
-    for st in case["steps"]:
-        ds = L.dataset(case["datasets"][st["ds"]])
-        before = pickle.dumps(pipe)
-        np.random.seed(st["seed"] % 2**32)
-        try:
-            pipe.train(ds, TrainingOptions(retrain=st["retrain"], rng=st["seed"]))
-        except Exception as e:
-            obs["steps"].append({"error": type(e).__name__})
-            break
-        after = pickle.dumps(pipe)
-        fresh = build_pipe(case)
-        np.random.seed(st["seed"] % 2**32)
-        fresh.train(ds, TrainingOptions(retrain=st["retrain"], rng=st["seed"]))
-        obs["steps"].append({
-            "stores": {n: L.store_of(c) for n, c, t in pipe_components(pipe) if t},
-            "fresh": {n: L.store_of(c) for n, c, t in pipe_components(fresh) if t},
-            "hp": pipe_outputs(pipe, case), "fp": pipe_outputs(fresh, case),
-            "pickle_same": before == after,
-        })
+    with warnings.catch_warnings():
+        warnings.simplefilter("ignore")
+        for k, st in enumerate(case["steps"]):
+            ds = L.dataset(case["datasets"][st["ds"]])
+            before = pickle.dumps(pipe)
+            err = ferr = None
+            np.random.seed(st["seed"] % 2**32)
+            try:
+                pipe.train(ds, TrainingOptions(retrain=st["retrain"], rng=st["seed"]))
+            except Exception as e:
+                err = _err(e)
+            after = None if err else pickle.dumps(pipe)
+            fresh = build_pipe(case)
+            np.random.seed(st["seed"] % 2**32)
+            try:
+                fresh.train(ds, TrainingOptions(retrain=st["retrain"], rng=st["seed"]))
+            except Exception as e:
+                fresh, ferr = None, _err(e)
+            if err:
+                obs["steps"].append({"error": err, "fresh_error": ferr})
+                break
+            obs["steps"].append({
+                "stores": {n: L.store_of(c) for n, c, t in pipe_components(pipe) if t},
+                "fresh": None if fresh is None else {n: L.store_of(c) for n, c, t in pipe_components(fresh) if t},
+                "hp": pipe_outputs(pipe, case), "fp": None if fresh is None else pipe_outputs(fresh, case),
+                "pickle_same": before == after,
+                "fresh_error": ferr,
+                # every call that is not skipped trains every component: compare with the components trained alone
+                "alone": _alone_stores(pipe, ds, st) if (k == 0 or st["retrain"]) and ferr is None else None,
+            })
     return obs
 
 
@@ -293,42 +459,119 @@ def _describe_rng(r, given):
     return ["other", type(r).__name__]
 
 
-def run_instr(case):
-    L.setup()
+def _instr_classes(log, holder):
+    """Instrumented components: every one counts its train() calls, remembers the round of its last training and shows it
+    in what it returns, so that a node run by name tells which training it stems from."""
     import numpy as np
-    from lenskit.pipeline import Component, PipelineBuilder
+    from lenskit.pipeline import Component
     from lenskit.training import Trainable, TrainingOptions
 
-    log = []
-    holder = {}
+    def record(self, data, options):
+        r = options.rng
+        use = None
+        if isinstance(r, np.random.SeedSequence):     # the generator this component actually obtains from its options
+            use = [int(x) for x in options.random_generator().integers(0, 2**62, 3)]
+        self.trained_round = holder["round"]
+        self.train_calls += 1
+        log.append({"name": self.label, "retrain": bool(options.retrain), "rng": _describe_rng(r, holder.get("rng")),
+                    "data_same": data is holder["data"], "options_same": options is holder.get("options"), "use": use})
 
-    class Plain(Component[int]):
+    class Plain0(Component[int]):
         config: None
+        label = "?"
 
         def __call__(self) -> int:
             return 1
 
-    class Recording(Component[int], Trainable):
+    class Plain1(Component[int]):
         config: None
         label = "?"
 
+        def __call__(self, a: int) -> int:
+            return 1 + a
+
+    class Plain2(Component[int]):
+        config: None
+        label = "?"
+
+        def __call__(self, a: int, b: int) -> int:
+            return 1 + a + b
+
+    class Rec0(Component[int], Trainable):
+        config: None
+        label = "?"
+        trained_round = 0
+        train_calls = 0
+
         def train(self, data, options=TrainingOptions()):
-            r = options.rng
-            use = None
-            if isinstance(r, np.random.SeedSequence):     # the generator this component actually obtains from its options
-                use = [int(x) for x in options.random_generator().integers(0, 2**62, 3)]
-            log.append({"name": self.label, "retrain": bool(options.retrain), "rng": _describe_rng(r, holder.get("rng")),
-                        "data_same": data is holder["data"], "options_same": options is holder.get("options"), "use": use})
+            record(self, data, options)
 
         def __call__(self) -> int:
-            return 2
+            return 1000 * self.trained_round
 
+    class Rec1(Rec0):
+        def __call__(self, a: int) -> int:
+            return 1000 * self.trained_round + a
+
+    class Rec2(Rec0):
+        def __call__(self, a: int, b: int) -> int:
+            return 1000 * self.trained_round + a + b
+
+    return [Plain0, Plain1, Plain2], [Rec0, Rec1, Rec2]
+
+
+def build_instr(case, log, holder):
+    from lenskit.pipeline import PipelineBuilder
+
+    plain, rec = _instr_classes(log, holder)
+    w = case.get("wiring")
     b = PipelineBuilder()
+    comps = {}
+    handles = {}
+    if w is not None:
+        handles["x"] = b.create_input("x", int)
+        handles["opt"] = b.create_input("opt", int, None)
     for nd in case["nodes"]:
-        c = Recording() if nd["trainable"] else Plain()
+        srcs = [] if w is None else w["inputs"].get(nd["name"], [])
+        c = (rec if nd["trainable"] else plain)[len(srcs)]()
         c.label = nd["name"]
-        b.add_component(nd["name"], c)
-    pipe = b.build()
+        comps[nd["name"]] = c
+        handles[nd["name"]] = b.add_component(nd["name"], c, **{k: handles[sname] for k, sname in zip("ab", srcs)})
+        for fb in ([] if w is None else w["fallbacks"]):
+            if fb["after"] == nd["name"]:
+                handles[fb["name"]] = b.use_first_of(fb["name"], handles[fb["primary"]], handles[fb["fallback"]])
+    if w is not None:
+        for a, n in w["aliases"]:
+            b.alias(a, handles[n])
+        if w["default"] is not None:
+            b.default_component(w["default"])
+    return b.build(), comps
+
+
+def _instr_expected(case, rnd):
+    """What every node returns when run by name with x = 1, if every trainable component was last trained in round `rnd`."""
+    w = case["wiring"]
+    tr = {nd["name"]: nd["trainable"] for nd in case["nodes"]}
+    fbs = {fb["name"]: fb for fb in w["fallbacks"]}
+    val = {"x": 1, "opt": None}
+    for nm in w["order"]:
+        if nm in fbs:
+            p = val[fbs[nm]["primary"]]
+            val[nm] = p if p is not None else val[fbs[nm]["fallback"]]
+        else:
+            ins = sum(val[sname] for sname in w["inputs"][nm])
+            val[nm] = (1000 * rnd if tr[nm] else 1) + ins
+    return {nm: val[nm] for nm in w["order"]}
+
+
+def run_instr(case):
+    L.setup()
+    import numpy as np
+    from lenskit.training import TrainingOptions
+
+    log = []
+    holder = {}
+    pipe, comps = build_instr(case, log, holder)
     kind, seed = case["rng"], case["seed"]
     if kind == "int":
         given = seed
@@ -346,10 +589,12 @@ def run_instr(case):
         given = np.random.PCG64(seed)
     else:
         given = None
-    ds = L.dataset({"tag": 0, "rows": [[1, 1, 6, 5], [2, 1, 4, 6], [2, 2, 8, 7]], "timestamps": True})
-    holder["data"], holder["rng"] = ds, given
+    holder["rng"] = given
     rounds = []
-    for _ in range(case["repeat"]):
+    for rnd in range(1, case["repeat"] + 1):
+        # another dataset object every round
+        ds = L.dataset({"tag": rnd, "rows": [[1, 1, 6, 5], [2, 1, 4, 6], [2, 2 + rnd, 8, 7]], "timestamps": True})
+        holder["data"], holder["round"] = ds, rnd
         log.clear()
         sb = int(given.n_children_spawned) if isinstance(given, np.random.SeedSequence) else 0
         if case["options_none"] and kind == "none":
@@ -367,7 +612,19 @@ def run_instr(case):
             for j in range(len(log)):
                 child = np.random.SeedSequence(root.entropy, spawn_key=(start + j,))
                 ref.append([int(x) for x in np.random.default_rng(child).integers(0, 2**62, 3)])
-        rounds.append({"spawned_before": sb, "calls": list(log), "use_ref": ref})
+        rd = {"spawned_before": sb, "calls": list(log), "use_ref": ref,
+              "counts": {n: int(getattr(c, "train_calls", 0)) for n, c in comps.items()},
+              "trained_round": {n: int(c.trained_round) for n, c in comps.items() if hasattr(c, "trained_round")}}
+        if case.get("wiring") is not None:
+            # the state check: every node run BY NAME, whether or not a declared output is computed from it
+            got = {}
+            for nm in case["wiring"]["order"]:
+                try:
+                    got[nm] = int(pipe.run(nm, x=1))
+                except Exception as e:
+                    got[nm] = "error:" + type(e).__name__
+            rd["runs"], rd["runs_expected"] = got, _instr_expected(case, rnd)
+        rounds.append(rd)
     base = None
     if kind in ("int", "npint", "intlist"):
         ent = np.random.SeedSequence(given).entropy
@@ -390,14 +647,24 @@ def run_pair(case):
     def given():
         s = case["seed"]
         return s if case["seed_kind"] == "int" else (np.random.SeedSequence(s) if case["seed_kind"] == "seedseq" else [s, 3])
+    from lenskit.data import ItemList, RecQuery
+
     b = PipelineBuilder()
     comps = []
+    layout = case.get("layout", "flat")
+    wires = {}
+    if layout != "flat":
+        wires = {"query": b.create_input("query", RecQuery), "items": b.create_input("items", ItemList)}
     if case["deterministic_between"]:
-        b.add_component("bias0", L.make("bias", {"damping": 2}))     # a trainable, non-stochastic node shifts the positions
+        b.add_component("bias0", L.make("bias", {"damping": 2}), **wires)     # a trainable, non-stochastic node shifts the positions
     for j, m in enumerate(case["members"]):
         c = L.make(m["kind"], m["cfg"])
         comps.append(c)
-        b.add_component(f"s{j}", c)
+        b.add_component(f"s{j}", c, **wires)
+    if "alias" in layout:
+        b.alias("scorer", f"s{case['output']}")
+    if "default" in layout:
+        b.default_component("scorer" if "alias" in layout else f"s{case['output']}")
     pipe = b.build()
     try:
         pipe.train(ds, TrainingOptions(rng=given()))
@@ -410,6 +677,7 @@ def run_pair(case):
         alone = L.make(m["kind"], m["cfg"])
         alone.train(ds, TrainingOptions(rng=np.random.SeedSequence(root.entropy, spawn_key=(off + j,))))
         members.append({"kind": m["kind"], "position": off + j,
+                        "role": "no-declared-output" if layout == "flat" else ("declared-output" if j == case["output"] else "side-branch"),
                         "in_pipeline": {k: v for k, v in L.store_of(c).items() if not k.startswith("_")},
                         "alone_child": {k: v for k, v in L.store_of(alone).items() if not k.startswith("_")}})
     same = [[a, b2] for a in range(len(members)) for b2 in range(a + 1, len(members))
@@ -481,6 +749,8 @@ def coq_term(case, obs):
         return term_history(obs["class"], obs["variant"], steps)
     if case["type"] == "pipe":
         good = [(s, st) for s, st in zip(obs["steps"], case["steps"]) if "error" not in s]
+        if any(s["fresh"] is None for s, _ in good):
+            good = good[: [i for i, (s, _) in enumerate(good) if s["fresh"] is None][0]]
         if not good:
             return None
         terms = []
@@ -494,6 +764,16 @@ def coq_term(case, obs):
     for r in obs["rounds"]:
         calls = clist(r["calls"], lambda c: c_call(c, obs["base"]))
         terms.append(f"(agree_pipeline pt_seed_plan pt_spawn_width {RNG_KIND_COQ[case['rng']]} {cbool(retrain)} {cnat(r['spawned_before'])} {ns} {calls})")
+        w = case.get("wiring")
+        if w is not None:
+            # the whole shape: function nodes (fallbacks) are nodes too, never trainable
+            tr = {n["name"]: n["trainable"] for n in case["nodes"]}
+            allnodes = clist(w["order"], lambda n: f"(mkNode {cstr(n)} {cbool(tr.get(n, False))})")
+            edges = clist(S.edges_of(w), lambda e: f"({cstr(e[0])}, {cstr(e[1])})")
+            default = "None" if w["default"] is None else f"(Some {cstr(S.resolve(w, w['default']))})"
+            aliases = clist(w["aliases"], lambda a: f"({cstr(a[0])}, {cstr(a[1])})")
+            terms.append(f"(agree_shape pt_iterates_all_nodes pt_seed_plan pt_spawn_width {RNG_KIND_COQ[case['rng']]} {cbool(retrain)} "
+                         f"{cnat(r['spawned_before'])} (mkShape {allnodes} {edges} {default} {aliases}) {calls})")
         if obs["base"] is not None:
             got = [_dz(c["use"]) for c in r["calls"]]
             terms.append(f"(agree_use options_rng_passthrough {clist(got, cz)} {clist([_dz(x) for x in r['use_ref']], cz)})")
@@ -509,24 +789,35 @@ def _public(store):
     return {k: v for k, v in store.items() if not k.startswith("_")}
 
 
-def oracle_history(tag, steps_obs, steps, stores_key="store", fresh_key="fresh"):
+def oracle_history(tag, steps_obs, steps, stores_key="store", fresh_key="fresh", datasets=None):
     v = []
     eff = None
+
+    def shape(k):
+        return "" if datasets is None else ":" + S.shape_of(datasets[steps[k]["ds"]])
     for k, (s, st) in enumerate(zip(steps_obs, steps)):
-        if "error" in s:
-            break
         skipped = eff is not None and not st["retrain"]
+        if "error" in s:
+            # a training call that raises is outside the property -- unless only the object with a history raises
+            if not skipped and "fresh_error" in s and s["fresh_error"] is None:
+                v.append((f"train-raises-only-after-history:{tag}{shape(k)}",
+                          f"call {k} raised {s['error']} on an object with a training history; a fresh object trains on the same data and options without error"))
+            break
         if skipped:
             if not s["pickle_same"]:
                 v.append((f"skip-changed:{tag}", f"call {k} with retraining disabled on a trained object changed its pickle bytes"))
         else:
             eff = k
+            if s.get("fresh_error") is not None:
+                # the data cannot be learned from: the retraining must say so too, not return with the old model in place
+                v.append((f"retrain-kept-old-model-silently:{tag}{shape(k)}",
+                          f"call {k} (a real training) returned normally, but a fresh object trained on the same data and options raises {s['fresh_error']}"))
         ref = steps_obs[eff]
         if ref.get(fresh_key) is None or ref.get("fp") is None:
             break
         if s["hp"] != ref["fp"]:
             bad = [i for i, (a, b) in enumerate(zip(s["hp"], ref["fp"])) if a != b]
-            v.append((f"scores-differ:{tag}", f"after call {k} the outputs differ from a fresh object trained on the data of call {eff} (probe queries {bad[:5]})"))
+            v.append((f"scores-differ:{tag}", f"after call {k} the outputs differ from a fresh object trained on the data of call {eff}{shape(eff)} (probe queries {bad[:5]})"))
         a, b = s[stores_key], ref[fresh_key]
         if isinstance(a, dict) and a and all(isinstance(x, dict) for x in a.values()):
             pairs = [(n, _public(a[n]), _public(b[n])) for n in a]
@@ -536,7 +827,17 @@ def oracle_history(tag, steps_obs, steps, stores_key="store", fresh_key="fresh")
             for attr in sorted(set(x) | set(y)):
                 if x.get(attr) != y.get(attr):
                     v.append((f"stale-state:{tag}:{n}{'.' if n else ''}{attr}",
-                              f"after call {k} attribute {attr} differs from a fresh object trained on the data of call {eff}"))
+                              f"after call {k} attribute {attr} differs from a fresh object trained on the data of call {eff}{shape(eff)}"))
+        # pipelines: every component against the same component trained alone on the data of this call
+        alone = s.get("alone")
+        if alone and not skipped:
+            for n in sorted(alone):
+                x, y = _public(s[stores_key].get(n, {})), alone[n]
+                if x != y:
+                    what = "was not trained" if not x else f"differs in {sorted(q for q in set(x) | set(y) if x.get(q) != y.get(q))}"
+                    v.append((f"pipeline-component-not-trained-as-alone:{tag}:{n}",
+                              f"after call {k} (a real training of the whole pipeline) component node {n} {what}, compared with the same "
+                              "component trained alone on that data with any child of the seed"))
     return v
 
 
@@ -545,7 +846,11 @@ def oracle_pair(case, obs):
     if obs.get("error"):
         return v
     for j, m in enumerate(obs["members"]):
-        if m["in_pipeline"] != m["alone_child"]:
+        if not m["in_pipeline"] and m["alone_child"]:
+            v.append((f"pipeline-component-untrained:{m.get('role', 'no-declared-output')}",
+                      f"node s{j} ({m['kind']}, {m.get('role')}; layout {case.get('layout', 'flat')}, declared output s{case.get('output')}) holds no learned "
+                      "state after Pipeline.train: it was never trained"))
+        elif m["in_pipeline"] != m["alone_child"]:
             bad = sorted(k for k in m["in_pipeline"] if m["in_pipeline"][k] != m["alone_child"].get(k))
             v.append((f"pipeline-component-not-child-seed:{m['kind']}",
                       f"node s{j} ({m['kind']}) trained in a pipeline with seed {case['seed']} ({case['seed_kind']}) differs in {bad} from the same component "
@@ -561,18 +866,37 @@ def oracle(case, obs):
     if case["type"] == "pair":
         return oracle_pair(case, obs)
     if case["type"] == "comp":
-        v = oracle_history(case["kind"], obs["steps"], case["steps"])
+        v = oracle_history(case["kind"], obs["steps"], case["steps"], datasets=case["datasets"])
     elif case["type"] == "pipe":
-        v = oracle_history(f"pipeline-{case['builder']}-{case['kind']}", obs["steps"], case["steps"], "stores", "fresh")
+        v = oracle_history(f"pipeline-{case['builder']}-{case['kind']}", obs["steps"], case["steps"], "stores", "fresh", datasets=case["datasets"])
     else:
         v = []
         want = [n["name"] for n in case["nodes"] if n["trainable"]]
         seeded = obs["base"] is not None
-        for r in obs["rounds"]:
+        w = case.get("wiring")
+        every = [n["name"] for n in case["nodes"]] if w is None else list(w["order"])
+        role = S.roles(w, every)
+        expect = {n["name"]: (1 if n["trainable"] else 0) for n in case["nodes"]}
+        for rnd, r in enumerate(obs["rounds"], 1):
             names = [c["name"] for c in r["calls"]]
-            if sorted(names) != sorted(want):
-                v.append(("pipeline-train-count", f"trainable components {want} but train() was called on {names}"))
-            if names != want:
+            # "trains each trainable component exactly once": counted per node, wherever the node sits in the graph
+            bad = [n for n in expect if names.count(n) != expect[n] or r.get("counts", {}).get(n, rnd * expect[n]) != rnd * expect[n]]
+            for ro in sorted({role[n] for n in bad}):
+                these = [n for n in bad if role[n] == ro]
+                v.append((f"pipeline-train-count:{ro}",
+                          f"training #{rnd} of the pipeline: train() calls {names}; node(s) {these} ({ro}) were trained "
+                          f"{[names.count(n) for n in these]} time(s), expected {[expect[n] for n in these]} "
+                          f"(default {None if w is None else w['default']}, aliases {None if w is None else w['aliases']})"))
+            stale = [n for n, t in r.get("trained_round", {}).items() if expect.get(n) and t != rnd]
+            got, exp = r.get("runs"), r.get("runs_expected")
+            if got is not None and got != exp:
+                stale = sorted(set(stale) | {n for n in exp if got.get(n) != exp[n]})
+            for ro in sorted({role[n] for n in stale}):
+                these = [n for n in stale if role[n] == ro]
+                v.append((f"pipeline-node-not-trained-on-latest-data:{ro}",
+                          f"after training #{rnd} node(s) {these} ({ro}) run by name do not show the model of this training: "
+                          f"got {None if got is None else [got.get(n) for n in these]}, expected {None if exp is None else [exp.get(n) for n in these]}"))
+            if [n for n in names if n in want] != [n for n in want if n in names] and not bad:
                 v.append(("pipeline-train-order", f"train() calls {names} are not the trainable nodes in node order {want}"))
             if not all(c["data_same"] for c in r["calls"]):
                 v.append(("pipeline-train-data", "a component was trained on something other than the given dataset"))
@@ -629,6 +953,7 @@ def counters(case, obs):
     if case["type"] == "pair":
         yield "pair=" + "+".join(m["kind"] for m in case["members"]) + ("/bias-first" if case["deterministic_between"] else "")
         yield "pair-seed=" + case["seed_kind"]
+        yield "pair-layout=" + case.get("layout", "flat")
         if obs.get("error"):
             yield "train-error=" + obs["error"]
         return
@@ -636,6 +961,15 @@ def counters(case, obs):
         yield "rng=" + case["rng"]
         yield f"trainable-nodes={min(4, sum(1 for n in case['nodes'] if n['trainable']))}"
         yield f"repeat={case['repeat']}"
+        w = case.get("wiring")
+        names = [n["name"] for n in case["nodes"]]
+        ro = S.roles(w, names)
+        yield "shape=" + ("unwired" if w is None else "+".join(x for x in ("default" if w["default"] is not None else "", "alias" if w["aliases"] else "") if x) or "wired-no-output")
+        for n in case["nodes"]:
+            if n["trainable"]:
+                yield "trainable-node=" + ro[n["name"]]
+                if S.consumers(w, n["name"]) >= 2:
+                    yield "trainable-node-shared-by-two-consumers"
         return
     yield "kind=" + case["kind"]
     if case["type"] == "comp":
@@ -664,6 +998,20 @@ def counters(case, obs):
         yield "earlier-dataset-has-items-the-later-lacks"
     if not all(d.get("timestamps", True) for d in ds):
         yield "dataset-without-timestamps"
+    eff = None
+    for k, (s, st) in enumerate(zip(obs["steps"], case["steps"])):
+        sh = S.shape_of(ds[st["ds"]])
+        if "error" in s:
+            yield f"train-raised-on={sh}" + ("(fresh too)" if s.get("fresh_error") else "")
+            break
+        if eff is None or st["retrain"]:
+            if sh != "plain":
+                yield ("first-trained-on=" if eff is None else "retrained-on=") + sh
+            eff = k
+    if case["type"] == "pipe":
+        for n, cls, variant, t in obs["components"]:
+            if t and n in ("fallback-predictor", "side-scorer") and case["builder"] in ("topn-transform", "topn-side", "predict-side"):
+                yield "trainable-side-branch-node=" + n
 
 
 def sample(case, obs):
@@ -676,12 +1024,36 @@ def sample(case, obs):
     return {"case": small, "observation": {"steps": [{k: (v if k != "hp" and k != "fp" else f"{len(v or [])} probe digests") for k, v in s.items()} for s in obs["steps"][:2]]}}
 
 
+_shrinks = 0
+MAX_SHRINKS = 5
+
+
 def shrink(case, fails):
-    if case["type"] == "pair":
+    global _shrinks
+    _shrinks += 1
+    if _shrinks > MAX_SHRINKS or case["type"] == "pair":     # cap the cost of a failing run: five keys are minimised
         return case
     if case["type"] == "instr":
         c = dict(case)
-        c["nodes"] = common.shrink_list(case["nodes"], lambda xs: bool(xs) and fails({**c, "nodes": xs}), 20)
+        if case.get("wiring") is None:
+            c["nodes"] = common.shrink_list(case["nodes"], lambda xs: bool(xs) and fails({**c, "nodes": xs}), 20)
+            return c
+        # a wired graph: later nodes are never sources of earlier ones, so drop nodes from the end
+        while len(c["nodes"]) > 1:
+            w = c["wiring"]
+            last = c["nodes"][-1]["name"]
+            gone = {last} | {fb["name"] for fb in w["fallbacks"] if fb["after"] == last}
+            if (w["default"] is not None and S.resolve(w, w["default"]) in gone) or any(n in gone for _, n in w["aliases"]):
+                break
+            w2 = {"inputs": {k: v for k, v in w["inputs"].items() if k not in gone},
+                  "fallbacks": [fb for fb in w["fallbacks"] if fb["name"] not in gone],
+                  "order": [n for n in w["order"] if n not in gone], "default": w["default"], "aliases": w["aliases"]}
+            c2 = {**c, "nodes": c["nodes"][:-1], "wiring": w2}
+            if not fails(c2):
+                break
+            c = c2
+        if c["repeat"] > 1 and fails({**c, "repeat": 1}):
+            c = {**c, "repeat": 1}
         return c
     c = dict(case)
     c["steps"] = common.shrink_list(case["steps"], lambda xs: bool(xs) and fails({**c, "steps": xs}), 12)
